@@ -40,7 +40,12 @@ struct trap
 
 // ---- conditions --------------------------------------------------------------------------------
 
-template <typename T> struct cond;
+// primary template: concrete (replay) mode, T is the native floating point type
+template <typename T> struct cond
+{
+    bool b;
+    cond(bool x) : b(x) {}
+};
 
 template <> struct cond<real>
 {
@@ -48,18 +53,13 @@ template <> struct cond<real>
     cond(z3::expr const& x) : e(x) {}
     cond(bool b) : e(E().ctx.bool_val(b)) {}
 };
-template <> struct cond<double>
-{
-    bool b;
-    cond(bool x) : b(x) {}
-};
 
 inline cond<real> operator&&(cond<real> const& a, cond<real> const& b) { return cond<real>(a.e && b.e); }
 inline cond<real> operator||(cond<real> const& a, cond<real> const& b) { return cond<real>(a.e || b.e); }
 inline cond<real> operator!(cond<real> const& a) { return cond<real>(!a.e); }
-inline cond<double> operator&&(cond<double> const& a, cond<double> const& b) { return cond<double>(a.b && b.b); }
-inline cond<double> operator||(cond<double> const& a, cond<double> const& b) { return cond<double>(a.b || b.b); }
-inline cond<double> operator!(cond<double> const& a) { return cond<double>(!a.b); }
+template <typename T> inline cond<T> operator&&(cond<T> const& a, cond<T> const& b) { return cond<T>(a.b && b.b); }
+template <typename T> inline cond<T> operator||(cond<T> const& a, cond<T> const& b) { return cond<T>(a.b || b.b); }
+template <typename T> inline cond<T> operator!(cond<T> const& a) { return cond<T>(!a.b); }
 
 struct check_stat
 {
@@ -88,7 +88,8 @@ struct results
     std::vector<std::string> smt2_files;
 };
 
-template <typename T> class H;
+
+template <typename F> class H;
 
 // --------------------------------------------------------------------------------------------
 // symbolic mode
@@ -221,18 +222,18 @@ public:
 
 // --------------------------------------------------------------------------------------------
 // concrete (replay) mode
-template <>
-class H<double>
+template <typename F>
+class H
 {
 public:
     static constexpr bool is_sym = false;
     std::map<std::string, long> cfg;
-    std::vector<double> inputs;        // by creation order
+    std::vector<F> inputs;        // by creation order
     std::vector<int> choices;
     std::size_t ipos = 0, cpos = 0;
     std::set<std::string> failed;      // names of checks that failed concretely
     std::vector<std::string> log;
-    double tol = 1e-9;
+    F tol = F(1e-9) > 64 * std::numeric_limits<F>::epsilon() ? F(1e-9) : 64 * std::numeric_limits<F>::epsilon();
     bool input_underflow = false;
 
     long get(std::string const& k, long dflt) const
@@ -241,19 +242,19 @@ public:
         return it == cfg.end() ? dflt : it->second;
     }
 
-    double input(std::string const&)
+    F input(std::string const&)
     {
         if (ipos < inputs.size()) return inputs[ipos++];
         input_underflow = true;
-        return 0.5;
+        return F(0.5);
     }
-    double input(std::string const& n, double, double, bool = false, bool = false) { return input(n); }
-    double special(int kind)
+    F input(std::string const& n, double, double, bool = false, bool = false) { return input(n); }
+    F special(int kind)
     {
-        if (kind == PINF) return std::numeric_limits<double>::infinity();
-        if (kind == NINF) return -std::numeric_limits<double>::infinity();
-        if (kind == NANK) return std::numeric_limits<double>::quiet_NaN();
-        return 0.0;
+        if (kind == PINF) return std::numeric_limits<F>::infinity();
+        if (kind == NINF) return -std::numeric_limits<F>::infinity();
+        if (kind == NANK) return std::numeric_limits<F>::quiet_NaN();
+        return F(0.0);
     }
     int choose(std::string const&, int n)
     {
@@ -261,36 +262,38 @@ public:
         if (cpos < choices.size()) return choices[cpos++];
         return 0;
     }
-    void assume(cond<double> const&) {}
+    void assume(cond<F> const&) {}
     void event(std::string const& s) { log.push_back(s); }
 
-    cond<double> eq(double a, double b)
+    // algebraic identity: compared with a tolerance (the concrete run rounds)
+    cond<F> eq(F a, F b)
     {
         if (std::isnan(a) || std::isnan(b)) return false;
         if (std::isinf(a) || std::isinf(b)) return a == b;
-        return std::fabs(a - b) <= tol * std::max(1.0, std::max(std::fabs(a), std::fabs(b)));
+        return std::fabs(a - b) <= tol * std::max(F(1.0), std::max(std::fabs(a), std::fabs(b)));
     }
-    cond<double> same(double a, double b)
+    // identity of two values that the real code must produce identically: exact
+    cond<F> same(F a, F b)
     {
         if (std::isnan(a) && std::isnan(b)) return true;
-        return eq(a, b);
+        return a == b;
     }
-    cond<double> le(double a, double b)
+    cond<F> le(F a, F b)
     {
         if (std::isnan(a) || std::isnan(b)) return false;
         if (std::isinf(a) || std::isinf(b)) return a <= b;
-        return a <= b + tol * std::max(1.0, std::max(std::fabs(a), std::fabs(b)));
+        return a <= b + tol * std::max(F(1.0), std::max(std::fabs(a), std::fabs(b)));
     }
-    cond<double> lt(double a, double b)
+    cond<F> lt(F a, F b)
     {
         if (std::isnan(a) || std::isnan(b)) return false;
         return a < b;
     }
-    cond<double> finite(double a) { return std::isfinite(a); }
-    cond<double> truth(bool b) { return b; }
-    std::string show(double a) { std::ostringstream o; o.precision(17); o << a; return o.str(); }
+    cond<F> finite(F a) { return std::isfinite(a); }
+    cond<F> truth(bool b) { return b; }
+    std::string show(F a) { std::ostringstream o; o.precision(21); o << a; return o.str(); }
 
-    void check(std::string const& name, cond<double> const& c)
+    void check(std::string const& name, cond<F> const& c)
     {
         if (!c.b) failed.insert(name);
     }
@@ -302,17 +305,17 @@ namespace sym
 {
 struct concrete_hook
 {
-    static H<double>*& h() { static H<double>* p = nullptr; return p; }
+    static H<SYM_NATIVE>*& h() { static H<SYM_NATIVE>* p = nullptr; return p; }
 };
 
 // fills the concrete canonical table on demand: called by harnesses before each draw is not
 // possible (draws happen inside library code), so instead the concrete generate_canonical above
 // consults this function pointer when the table has no entry.
-inline double concrete_next_u(std::uint64_t p)
+inline SYM_NATIVE concrete_next_u(std::uint64_t p)
 {
-    H<double>* h = concrete_hook::h();
-    double v = h ? h->input("u") : 0.5;
-    canon_table<double>::table().emplace(p, v);
+    H<SYM_NATIVE>* h = concrete_hook::h();
+    SYM_NATIVE v = h ? h->input("u") : static_cast<SYM_NATIVE>(0.5);
+    canon_table<SYM_NATIVE>::table().emplace(p, v);
     return v;
 }
 
@@ -323,12 +326,12 @@ namespace std
 // concrete mode: canonical numbers are inputs (in creation order), keyed by stream position so that
 // two runs over the same stream see the same numbers
 template <>
-inline double generate_canonical<double, 53, sym::stub_engine>(sym::stub_engine& g)
+inline SYM_NATIVE generate_canonical<SYM_NATIVE, SYM_DIGITS, sym::stub_engine>(sym::stub_engine& g)
 {
     std::uint64_t const p = g.position;
     g.position += SYM_RAW_PER_CANONICAL;
-    sym::canon_table<double>::draws().push_back(p);
-    auto& tab = sym::canon_table<double>::table();
+    sym::canon_table<SYM_NATIVE>::draws().push_back(p);
+    auto& tab = sym::canon_table<SYM_NATIVE>::table();
     auto it = tab.find(p);
     if (it != tab.end()) return it->second;
     return sym::concrete_next_u(p);
@@ -384,15 +387,15 @@ inline options parse_args(int argc, char** argv)
     return o;
 }
 
-inline double parse_decimal(std::string s)
+inline SYM_NATIVE parse_decimal(std::string s)
 {
     // "123.456", "-1/3" or plain integers
     std::size_t sl = s.find('/');
     if (sl != std::string::npos)
     {
-        return std::stod(s.substr(0, sl)) / std::stod(s.substr(sl + 1));
+        return static_cast<SYM_NATIVE>(std::stold(s.substr(0, sl)) / std::stold(s.substr(sl + 1)));
     }
-    return std::stod(s);
+    return static_cast<SYM_NATIVE>(std::stold(s));
 }
 
 template <typename BodyS, typename BodyD>
@@ -407,14 +410,14 @@ int run_harness(std::string const& harness_name, options const& opt, BodyS body_
         std::ifstream f(opt.replay_file);
         std::string check_name, line;
         std::getline(f, check_name);
-        H<double> h;
+        H<SYM_NATIVE> h;
         h.cfg = opt.cfg;
         std::getline(f, line);
         { std::istringstream is(line); int c; while (is >> c) h.choices.push_back(c); }
         while (std::getline(f, line)) { if (!line.empty()) h.inputs.push_back(parse_decimal(line)); }
         concrete_hook::h() = &h;
-        canon_table<double>::table().clear();
-        canon_table<double>::draws().clear();
+        canon_table<SYM_NATIVE>::table().clear();
+        canon_table<SYM_NATIVE>::draws().clear();
         bool threw = false;
         std::string what;
         try
@@ -510,18 +513,18 @@ int run_harness(std::string const& harness_name, options const& opt, BodyS body_
     // concrete replay of violations
     for (auto& v : res.violations)
     {
-        H<double> hd;
+        H<SYM_NATIVE> hd;
         hd.cfg = opt.cfg;
         hd.choices = v.choices;
         for (auto const& s : v.input_values)
         {
-            double d = 0.0;
-            try { d = parse_decimal(s); } catch (...) { d = 0.0; }
+            SYM_NATIVE d = 0;
+            try { d = parse_decimal(s); } catch (...) { d = 0; }
             hd.inputs.push_back(d);
         }
         concrete_hook::h() = &hd;
-        canon_table<double>::table().clear();
-        canon_table<double>::draws().clear();
+        canon_table<SYM_NATIVE>::table().clear();
+        canon_table<SYM_NATIVE>::draws().clear();
         v.replayed = true;
         try
         {
@@ -620,7 +623,7 @@ extern "C" __attribute__((noreturn)) void __assert_fail(const char* assertion, c
     {                                                                                             \
         sym::options opt = sym::parse_args(argc, argv);                                           \
         return sym::run_harness(NAME, opt, [](sym::H<sym::real>& h) { BODY<sym::real>(h); },      \
-            [](sym::H<double>& h) { BODY<double>(h); });                                          \
+            [](sym::H<SYM_NATIVE>& h) { BODY<SYM_NATIVE>(h); });                                          \
     }
 
 #endif
